@@ -298,16 +298,27 @@ func c15d(c *Ctx) {
 		if fn == nil {
 			continue
 		}
-		as := allocsOf(fn, x.pkg, x.typ)
+		// nodes built by the function or by one of its private helpers
+		type built struct {
+			fn *ssa.Function
+			a  *ssa.Alloc
+		}
+		var as []built
+		for _, m := range c.unitOf(fn) {
+			for _, a := range allocsOf(m.fn, x.pkg, x.typ) {
+				as = append(as, built{m.fn, a})
+			}
+		}
 		if len(as) == 0 {
 			c.Bad(x.fn+"/"+x.typ, c.W.FuncPos(fn), "no "+x.typ+" is built here any more")
 			continue
 		}
-		for i, a := range as {
+		for i, b := range as {
+			a := b.a
 			// value at the last instruction of the allocation's block chain: use the point after
 			// the last store into the object
 			use := lastUse(a)
-			got := c.fieldAtUse(fn, a, x.field, use)
+			got := c.fieldAtUse(b.fn, a, x.field, use)
 			ok := false
 			for _, w := range strings.Split(x.want, "|") {
 				if got == w {
